@@ -96,8 +96,18 @@ Fixpoint ultra_pass2 (thr : Z * Z) (l : list dentry) : list dentry :=
   | [] => []
   end.
 
-Definition remove_ultrashort (thr : Z * Z) (minT : Z) (l : list dentry) : list dentry :=
+(* the function before the repair of F19: a tier all of whose intervals are shorter than the
+   threshold came out with no interval at all *)
+Definition remove_ultrashort_legacy (thr : Z * Z) (minT : Z) (l : list dentry) : list dentry :=
   ultra_pass2 thr (ultra_pass1 thr minT l []).
+
+(* newEntries is empty exactly when no interval reaches the threshold; then, as for a tier without
+   entries, one blank interval from the tier's start to the last end is written *)
+Definition remove_ultrashort (thr : Z * Z) (minT : Z) (l : list dentry) : list dentry :=
+  match ultra_pass1 thr minT l [], last_opt l with
+  | [], Some e => ultra_pass2 thr [DI minT (de e) []]
+  | p1, _ => ultra_pass2 thr p1
+  end.
 
 Definition prep_tier (blanks : bool) (minT maxT : Z) (thr : option (Z * Z)) (t : dtier) : res dtier :=
   let ents := dsort (d_ents t) in
